@@ -176,6 +176,12 @@ def run(prop, tier):
             for v in found:
                 progs.setdefault(json.dumps(v['prog'], sort_keys=True), v)
             info.append({'MaxLen': n, 'Depth': d, 'programs': len(found), 'tlc': r['stats']})
+        for f in common.load_findings()['findings']:     # canonical inputs of open findings
+            if f['status'] == 'open' and f['property'] == prop and 'canonical' in f \
+                    and f.get('match', {}).get('family') == 'demand':
+                c = f['canonical']
+                progs.setdefault(json.dumps(c['prog'], sort_keys=True),
+                                 {'prog': c['prog'], 'n': c['n'], 'idx': c['idx']})
         recs = list(progs.values())
         chunks = [recs[i:i + 50] for i in range(0, len(recs), 50)]
         with mp.get_context('fork').Pool(common.NCPU) as pool:
